@@ -171,6 +171,9 @@ func genC11TxCase(r *Rng) c11TxInput {
 			}
 			if r.Chance(4, 5) {
 				op := c11Op{Kind: "prevote", Val: v, Feeder: f, HashFor: v, HashMode: "honest", Salt: c11Salts[r.Intn(3)], Rates: c11Rates[r.Intn(4)]}
+				if r.Chance(1, 6) {
+					op.Rates = c11RatesDup(r)
+				}
 				if r.Chance(2, 5) {
 					if t := c11SaltBases[r.Intn(len(c11SaltBases))]; utf8.ValidString(t) {
 						op.Salt = t
